@@ -53,11 +53,11 @@ SHAPES20 = [
 ]
 
 
-def cell(col, cfgs, tag):
+def cell(col, cfgs, tag, pdsmax=200):
     """(cell value as it appears in the CSV row, expected value in the output row)"""
     name = col.lower() + tag
     if col.startswith('PDS'):
-        n = sym_int(name + '_len', 1, 200)
+        n = sym_int(name + '_len', 1, pdsmax)
         v = Source(name, 't', n).rope()
         return v, v, lambda ev: concretize(v, ev)
     cfg = cfgs[col[2:]]
@@ -78,7 +78,7 @@ def cell(col, cfgs, tag):
     return v, v, lambda ev: concretize(v, ev)
 
 
-def csv_roundtrip(nrows, enc, blocked, shapes=None):
+def csv_roundtrip(nrows, enc, blocked, shapes=None, pdsmax=200):
     def h():
         core.FUEL.set(40)
         install_dateutil_stub()
@@ -94,7 +94,7 @@ def csv_roundtrip(nrows, enc, blocked, shapes=None):
             exp = {'MTI': '1240'}
             w = {'MTI': lambda ev: '1240'}
             for c in shape:
-                row[c], exp[c], w[c] = cell(c, cfgs, '_r%d' % i)
+                row[c], exp[c], w[c] = cell(c, cfgs, '_r%d' % i, pdsmax)
                 if c not in allcols:
                     allcols.append(c)
             rows.append(row)
@@ -139,6 +139,8 @@ def obligations(tier):
                           'one row, any column shape in %s, all lengths/values' % SHAPES20, _funcs))
     obs.append(Ob('rows2/latin_1/1014', csv_roundtrip(2, 'latin_1', True, shapes=SHAPES20[1:3] if q else None), 1800, 'two rows, any two shapes', _funcs))
     obs.append(Ob('rows2/cp500/vbs', csv_roundtrip(2, 'cp500', False, shapes=SHAPES20[2:] if q else None), 1800, 'two rows, any two shapes', _funcs))
+    obs.append(Ob('rows1-long/latin_1/1014', csv_roundtrip(1, 'latin_1', True, shapes=[['DE2', 'PDS0023', 'PDS0052', 'PDS0148']], pdsmax=992), 1200,
+                  'one row with three PDS columns of 1..992 characters each (record up to ~3000 bytes over several blocks)', _funcs))
     if not q:
         obs.append(Ob('rows3/cp037/1014', csv_roundtrip(3, 'cp037', True, shapes=SHAPES20[:3]), 3000, 'three rows', _funcs))
     return obs
